@@ -22,6 +22,7 @@ EXTENDS Aio, P_Scope, Json
 
 CONSTANTS Ops, MaxOps, MaxEnv, EnvKinds, MaxDepth,
           Shields, Deadlines, Delays, Cleanups, Pres,
+          RecordHist, \* FALSE: hist stays empty (liveness checking, which must not use a VIEW)
           ViaSetter   \* subset of {0, 1}: 1 = the deadline is assigned through the setter BEFORE the scope
                       \* is entered (no timer may be armed then: the scope is not active)
 
@@ -49,6 +50,7 @@ Feed2(e1, e2) == LET r1 == ScopeApply(pst, Stamp(e1))
                      r2 == ScopeApply(r1.p, Stamp(e2))
                  IN pst' = r2.p /\ pbad' = pbad \cup r1.bad \cup r2.bad
 
+Rec(h, x) == IF RecordHist THEN Append(h, x) ELSE h
 Boot == [K EXCEPT !.ready = [i \in 1..NT |-> HStep(i)]]
 H(t, c, a, b, d) == [w |-> "t", t |-> t, c |-> c, a |-> a, b |-> b, d |-> d, at |-> K.nh]
 HE(t, c) == [w |-> "e", t |-> t, c |-> c, a |-> 0, b |-> 0, d |-> 0, at |-> K.nh]
@@ -97,14 +99,14 @@ ClientChoose(t) ==
          asyncop(name, fr, a, b) ==
             /\ K' = Call(bump(K), t, "ret", fr)
             /\ Feed([ev |-> "opstart", t |-> t, op |-> name])
-            /\ hist' = Append(hist, H(t, name, a, b, 0))
+            /\ hist' = Rec(hist, H(t, name, a, b, 0))
             /\ UNCHANGED <<L, E>>
          open(kind, sh, dl, pre, cl, hname, ha, hb, hd) ==
             LET q1 == ScopeEnter(bumpS(K), t, sh = 1, dl, pre = 1, Tag(st.ns + 1, kind, cl, dl)) IN
             /\ K' = q1
             /\ Feed([ev |-> "enter", t |-> t, n |-> st.ns + 1, shield |-> sh, dl |-> dl, called |-> pre,
                      kind |-> kind, nc |-> K.T[t].nc])
-            /\ hist' = Append(hist, H(t, hname, ha, hb, hd))
+            /\ hist' = Rec(hist, H(t, hname, ha, hb, hd))
             /\ UNCHANGED <<L, E>>
      IN
      \/ /\ n < MaxOps /\ "open" \in Ops /\ d0 < MaxDepth
@@ -116,7 +118,7 @@ ClientChoose(t) ==
         /\ \E sh \in Shields, dly \in Delays : open("move", sh, K.now + dly, 0, 0, "openm", sh, dly, 0)
      \/ /\ n < MaxOps /\ "close" \in Ops /\ d0 > 1
         /\ K' = SetPc(bump([K EXCEPT !.T[t].reg = Val]), t, "unwind")
-        /\ hist' = Append(hist, H(t, "close", 0, 0, 0))
+        /\ hist' = Rec(hist, H(t, "close", 0, 0, 0))
         /\ UNCHANGED <<L, E, pst, pbad>>
      \/ (n < MaxOps /\ "yield" \in Ops /\ asyncop("yield", Frame("yield", "start", 0, 0), 0, 0))
      \/ /\ n < MaxOps /\ "sleep" \in Ops
@@ -125,14 +127,14 @@ ClientChoose(t) ==
      \/ /\ n < MaxOps /\ "set" \in Ops /\ ~L.flag
         /\ L' = [L EXCEPT !.flag = TRUE]
         /\ K' = bump(SetAllW(K, L.waiters))
-        /\ hist' = Append(hist, H(t, "set", 0, 0, 0))
+        /\ hist' = Rec(hist, H(t, "set", 0, 0, 0))
         /\ UNCHANGED <<E, pst, pbad>>
      \/ /\ n < MaxOps /\ "cancel" \in Ops
         /\ \E u \in Task, d \in 1..MaxDepth :
              /\ d <= Depth(K, u) /\ K.S[u][d].tag.kind # "csc" /\ ~K.S[u][d].called
              /\ K' = bump(ScopeCancel(K, <<u, d>>))
              /\ Feed([ev |-> "cancel", t |-> u, n |-> K.S[u][d].tag.n])
-             /\ hist' = Append(hist, H(t, "cancel", u, d, 0))
+             /\ hist' = Rec(hist, H(t, "cancel", u, d, 0))
         /\ UNCHANGED <<L, E>>
      \/ /\ n < MaxOps /\ "shield" \in Ops
         /\ \E d \in 2..MaxDepth :
@@ -140,32 +142,32 @@ ClientChoose(t) ==
              /\ LET v == ~K.S[t][d].shield IN
                 /\ K' = bump(ScopeSetShield(K, <<t, d>>, v))
                 /\ Feed([ev |-> "setshield", t |-> t, n |-> K.S[t][d].tag.n, v |-> B2I(v)])
-                /\ hist' = Append(hist, H(t, "shield", d, B2I(v), 0))
+                /\ hist' = Rec(hist, H(t, "shield", d, B2I(v), 0))
         /\ UNCHANGED <<L, E>>
      \/ /\ n < MaxOps /\ "dline" \in Ops
         /\ \E d \in 2..MaxDepth, dl \in Deadlines :
              /\ d <= d0 /\ dl # K.S[t][d].dl
              /\ K' = bump(ScopeSetDeadline(K, <<t, d>>, dl))
              /\ Feed([ev |-> "setdl", t |-> t, n |-> K.S[t][d].tag.n, dl |-> dl])
-             /\ hist' = Append(hist, H(t, "dline", d, dl, 0))
+             /\ hist' = Rec(hist, H(t, "dline", d, dl, 0))
         /\ UNCHANGED <<L, E>>
      \/ /\ n < MaxOps /\ "raise" \in Ops
         /\ K' = SetPc(bump([K EXCEPT !.T[t].reg = Err("E")]), t, "unwind")
-        /\ hist' = Append(hist, H(t, "raise", 0, 0, 0))
+        /\ hist' = Rec(hist, H(t, "raise", 0, 0, 0))
         /\ UNCHANGED <<L, E, pst, pbad>>
      \/ /\ n < MaxOps /\ "raisegrp" \in Ops      \* an exception group whose only leaf is a NATIVE CancelledError
         /\ K' = SetPc(bump([K EXCEPT !.T[t].reg = [k |-> "exc", c |-> "group", a |-> FALSE, e |-> {"N"}]]),
                       t, "unwind")
-        /\ hist' = Append(hist, H(t, "raisegrp", 0, 0, 0))
+        /\ hist' = Rec(hist, H(t, "raisegrp", 0, 0, 0))
         /\ UNCHANGED <<L, E, pst, pbad>>
      \/ /\ n < MaxOps /\ "probe" \in Ops
         /\ K' = bump(K)
         /\ Feed([ev |-> "probe", t |-> t, nc |-> K.T[t].nc, effdl |-> EffDeadlineFrom(K, Cur(K, t), INF),
                  cc |-> CC(K, t)])
-        /\ hist' = Append(hist, H(t, "probe", 0, 0, 0))
+        /\ hist' = Rec(hist, H(t, "probe", 0, 0, 0))
         /\ UNCHANGED <<L, E>>
      \/ /\ K' = SetPc([K EXCEPT !.T[t].reg = Val], t, "unwind0")
-        /\ hist' = Append(hist, H(t, "end", 0, 0, 0))
+        /\ hist' = Rec(hist, H(t, "end", 0, 0, 0))
         /\ UNCHANGED <<L, E, pst, pbad>>
 
 \* back from yield / sleep / wait
@@ -266,7 +268,7 @@ EnvCancel(t) ==
      ELSE /\ K' = ScopeCancel(K, <<t, 1>>)
           /\ E' = [E EXCEPT !.n = @ + 1, !.scoped = @ \cup {t}]
           /\ Feed([ev |-> "cancel", t |-> t, n |-> 1])
-  /\ hist' = Append(hist, HE(t, "cancel"))
+  /\ hist' = Rec(hist, HE(t, "cancel"))
   /\ UNCHANGED L
 
 EnvNative(t) ==
@@ -274,7 +276,7 @@ EnvNative(t) ==
   /\ K' = TaskCancel(K, t, FALSE)
   /\ E' = [E EXCEPT !.n = @ + 1, !.natived = @ \cup {t}]
   /\ Feed([ev |-> "native", t |-> t])
-  /\ hist' = Append(hist, HE(t, "native"))
+  /\ hist' = Rec(hist, HE(t, "native"))
   /\ UNCHANGED L
 
 AllDone == \A t \in Task : K.T[t].st = "done"
@@ -314,6 +316,16 @@ QuiescentNotStuck ==
 NoTimerOfDeadTask ==
   \A i \in DOMAIN K.timers : K.timers[i].h.k = "timeout" => K.T[K.timers[i].h.s[1]].st # "done"
 Residue == \A t \in Task : (K.T[t].st = "done" /\ t \notin E.natived) => K.T[t].nc = 0
+
+(****************************** liveness (C03) ********************************)
+\* Under weak fairness of the loop and of the tasks' own steps (the environment is not fair: it may
+\* stop acting) a task suspended inside an effectively cancelled, unshielded scope does not stay so.
+Stuck(t) == K.T[t].st = "pending" /\ K.T[t].fut = "pending" /\ EffCancelled(K, Cur(K, t))
+System == \/ (~Start /\ Cycle) \/ RunHandle
+          \/ \E t \in Task : ClientInit(t) \/ ClientChoose(t) \/ ClientRet(t) \/ ClientUnwind(t)
+                               \/ ClientCleaned(t) \/ ClientRewaited(t) \/ LibStep(t)
+FairSpec == Spec /\ WF_vars(System)
+NothingStaysStuck == \A t \in Task : Stuck(t) ~> ~Stuck(t)
 
 Final == [nh |-> K.nh, now |-> K.now,
           out |-> [t \in Task |-> IF K.T[t].st # "done" THEN "blocked" ELSE ResName(K.T[t].out)],
